@@ -81,7 +81,8 @@ def run(ctx):
     R.floor("ndet_sources", len(srcs), 20)
     seen_keys = {}
     for (f, c) in srcs:
-        key = "%s|%s" % (f.name, (c.target_path or "").split("::")[-2] + "::" + (c.target_path or "").split("::")[-1])
+        import re as _re
+        key = "%s|%s" % (_re.sub(r"(::\{closure#\d+\})+$", "", f.name), (c.target_path or "").split("::")[-2] + "::" + (c.target_path or "").split("::")[-1])
         seen_keys[key] = seen_keys.get(key, 0) + 1
         row = nd_tbl.get(key)
         if row is None:
